@@ -55,6 +55,7 @@ static void common_setup(const char* prop)
     }
     if (acquire_configure(RT, &PROPS) != AcquireStatus_Ok) { fprintf(stderr, "harness: acquire_configure failed in setup\n"); exit(2); }
     rt_watch_flags(P_STREAMS, (int)vs_param("watch", 1));
+    rt_watch_devices(P_STREAMS);
 }
 
 // ---- client-side monitoring (C06 oracle lives here; used by C04/C05 as the "client pace" axis) ---
@@ -528,6 +529,7 @@ static void c08_configure(char which)
     if (which == 'D') rt_select(&p, 0, "vcam1", "vstore0"); // another camera, same storage
     if (which == '2') { rt_select(&p, 0, "vcam0", "vstore0"); rt_select(&p, 1, "vcam1", "vstore1"); }
     acquire_configure(RT, &p); // may legitimately report an error (e.g. no stream): the oracle is the device monitor
+    rt_watch_devices(2);
 }
 static void c08_state_oracle(const char* after)
 {
